@@ -421,9 +421,10 @@ def steps(vc):
             def convertToScenarioTime(self_, jd0):
                 return vc.fn(SD + "JulianDate.convertToScenarioTime")(jd_tgt, jd0)
         vc.stub(SD + "@ScenarioTime", lambda x: x)
-        scn = _NS(clock=_NS(julian_date_start=jd_start, time=c0, julian_date_epoch=None), physics_time_step=step, output_time_step=step,
-                  scenario_config=_NS(propagation=_NS(truth_simulation_only=False)),
-                  stepForward=lambda: calls.__setitem__("n", calls["n"] + 1), saveDatabaseOutput=lambda: None)
+        # the real Scenario / ScenarioClock classes (built without their constructors); the clock has been running for c0 seconds since its initial time 0
+        clock = vc.new(CK + "ScenarioClock", julian_date_start=jd_start, time=c0, initial_time=0, dt_step=step, datetime_start=t0)
+        scn = vc.new(SC + "Scenario", clock=clock, scenario_config=_NS(propagation=_NS(truth_simulation_only=False), time=_NS(physics_step_sec=step, output_step_sec=step)),
+                     logger=None, stepForward=lambda: calls.__setitem__("n", calls["n"] + 1), saveDatabaseOutput=lambda: None)
         # cut: the rounded delta computed by the body (same terms, hash-consed) is exactly D
         from pyvc import shims
         tst = Tgt().convertToScenarioTime(jd_start)
@@ -446,8 +447,29 @@ def steps(vc):
         else:
             vc.ensure("O-C05-steps.count", True)
     else:
-        vc.ensure("O-C05-steps.count", True)
-        vc.ensure("O-C05-steps.too-short", True)
+        # native replay: the real propagateTo on a real clock that already ran c0 seconds; steps are counted
+        import datetime
+        from resonaate.physics.time.stardate import ScenarioTime, datetimeToJulianDate
+        from resonaate.scenario.clock import ScenarioClock
+        from resonaate.scenario.scenario import Scenario
+        D = q % (10 ** 4 // step + 1) * step + r
+        c0 = (c0 // step) * step
+        start = datetime.datetime(1990, 1, 1) + datetime.timedelta(seconds=vc.int("start_off", 0, 86400 * 365 * 100))
+        clock = object.__new__(ScenarioClock)
+        clock.__dict__.update(datetime_start=start, julian_date_start=datetimeToJulianDate(start), time=ScenarioTime(c0), initial_time=ScenarioTime(0), dt_step=ScenarioTime(step))
+        calls = {"n": 0}
+        scn = object.__new__(Scenario)
+        from contracts.stepfwd import NullLogger
+        scn.__dict__.update(clock=clock, scenario_config=_NS(propagation=_NS(truth_simulation_only=False), time=_NS(physics_step_sec=ScenarioTime(step), output_step_sec=ScenarioTime(step))),
+                            logger=NullLogger(), stepForward=lambda: (calls.__setitem__("n", calls["n"] + 1), clock.ticToc()), saveDatabaseOutput=lambda: None)
+        target = datetimeToJulianDate(start + datetime.timedelta(seconds=c0 + D))
+        try:
+            scn.propagateTo(target)
+            raised = False
+        except ValueError:
+            raised = True
+        vc.ensure("O-C05-steps.too-short", raised == (D < step))
+        vc.ensure("O-C05-steps.count", raised or calls["n"] == D // step)
         vc.ensure("O-C05-steps.delta", True)
         vc.ensure("O-C05-steps.quotient", True)
 
